@@ -601,7 +601,7 @@ func main() {
 	c.Set("features_observed_in_rendered_schemas", feats)
 	c.Set("undecided_points", len(r.infra))
 	c.Set("exhaustive", false)
-	c.Set("rule", "rows of spec/ProjectCover.tla: pairwise cover of 43 boolean + 4 multi-valued factors (+ 8 known-defect constructs pinned to FALSE in the cover, one probe row each) (schema features x documented configuration), checked pairwise by TLC (ASSUME CoverOK), + seeded rows (+ full factorial over CubeFactors in the thorough tier); every Generate step TLC enumerates (incl. evolutions in one directory and re-runs with unchanged input on top of the previous output where autobind lists the model output package) is replayed through the real generator + go build + go vet; a class is distinct by its multi-valued part, layouts and the numbers of features / options switched on")
+	c.Set("rule", "rows of spec/ProjectCover.tla: pairwise cover of 45 boolean + 4 multi-valued factors (+ 8 known-defect constructs pinned to FALSE in the cover, one probe row each) (schema features x documented configuration), checked pairwise by TLC (ASSUME CoverOK), + seeded rows (+ full factorial over CubeFactors in the thorough tier); every Generate step TLC enumerates (incl. evolutions in one directory and re-runs with unchanged input on top of the previous output where autobind lists the model output package) is replayed through the real generator + go build + go vet; a class is distinct by its multi-valued part, layouts and the numbers of features / options switched on")
 	r.report(r.fails)
 	c.Finish()
 }
